@@ -35,6 +35,15 @@ def cases(tier, r):
         wells = [(rr, cc) for cc in range(C) for rr in range(R)]
         k = r.randint(1, min(len(wells), 40))
         ps.append({"x": "sel", "rows": R, "cols": C, "sel": r.sample(wells, k), "tag": f"rnd{i}", "nd": True})
+    # a well may be named more than once (e.g. the output of get_trough_wells): the selection is the SET of named wells
+    for i in range(60 if q else 600):
+        R, C = r.choice([(8, 1), (8, 12), (4, 2), (1, 8), (3, 5), (16, 24)])
+        wells = [(rr, cc) for cc in range(C) for rr in range(R)]
+        base = r.sample(wells, r.randint(1, min(len(wells), 9)))
+        sel = base + [r.choice(base) for _ in range(r.randint(1, 4))]
+        r.shuffle(sel)
+        ps.append({"x": "sel", "rows": R, "cols": C, "sel": sel, "tag": f"rep{i}", "nd": i % 2 == 0})
+    ps.append({"x": "sel", "rows": 8, "cols": 1, "sel": [(rr % 8, 0) for rr in range(12)], "tag": "trough-cycle"})
     return ps
 
 
